@@ -435,6 +435,13 @@ def fd_cases(tier):
             words = ["fd"] + f(iw)
             cases.append(Case(q(words), words, "fd", f"fd | {label}", iname, truth="spec", stdin=b"",
                               plain_inner=all(iname != n for n, _ in NESTED)))
+    # fd appends the path of every result to a command that holds no placeholder ({} {/} {//} {.} {/.}), as xargs appends
+    # its items: a bare launcher runs the FOUND FILE (expected argv given explicitly; no fd binary here - fd --help)
+    for flag in ("-x", "--exec", "-X"):
+        for launcher in (["env"], ["nice"], ["nohup"], ["timeout", "5"], ["command"], ["env", "-i"]):
+            words = ["fd", flag] + launcher
+            cases.append(Case(q(words), words, "fd", "fd | bare launcher, fd appends the found path", " ".join(launcher), truth="expect",
+                              expect=[launcher + ["./ITEM"]], stdin=b"", validate=False, plain_inner=False))
     return cases
 
 
